@@ -432,7 +432,7 @@ Section Sim.
         unfold bind_value. cbn [snd fst insert_head].
         destruct (IH ret HQr Hfr Hf2 ((x, v0) :: f1) ((x, v') :: f2) G1 G2 (smap_remove m x) (x :: bound)
                      (Inv_bind bound f1 f2 G1 G2 m x v0 v' Hr HE) HV2
-                     (name_if_lambda s1 v0 x) (name_if_lambda s1' v' x))
+                     (name_if_created (Datatypes.length st) s1 v0 x) (name_if_created (Datatypes.length st') s1' v' x))
           as (r & s2 & g1 & r2' & s2' & g2 & E3 & E4 & Hr2).
         unfold EmitSound.do_body in E3, E4. do 6 eexists. split; [exact E3|split; [exact E4|exact Hr2]].
       + rewrite (hob_stmts_na opok biok a s t l Hna) in Hfs. apply andb_prop in Hfs as [Hf1 Hf2].
